@@ -9,7 +9,8 @@ SPEC = hdr_spec(
     props_file="C09", extra=spine_scripts(['files']), thorough_n=5000,
     partial_note="exactness of the height maps (RepoWF: every hash held at exactly one place, maps = positions, Branches.Find answers with the owning branch, heights map sound) "
                  "is a theorem for every state reached by any history of submissions (C09_wf_submissions and its four corollaries); across "
-                 "Consolidate/Truncate/Connect/Prune/Reload/Load it is checked by the correspondence and the monitor on every dump, not yet proved.")
+                 "Consolidate/Truncate/Connect/Prune/Reload/Load it is checked by the correspondence and the monitor on every dump, not yet proved. "
+                 "In the LINEAR WORLD (Proofs/LinearWorld: every history of tip-extending submissions of any length — across 1000-header file boundaries, the 10000-header prune depth and the automatic clean every 10000 heights — interleaved with Cleans, Saves and Loads of any depth, any number of generations) Hash(h) is the h-th accepted header for every height, served from memory or the files, and HashHeight is exactly the position (C09_linear_world).")
 
 META = dict(
     technique="Lean 4 proof (inductive invariant RepoWF over submission histories: id uniqueness, exact height maps; lookup decision logic; prune/extend preservation lemmas) + model/implementation correspondence on full lookup dumps",
